@@ -110,6 +110,62 @@ def rewrite_classify(line, impl, mobs, extra):
     return info
 
 
+def image_classify(prop):
+    def classify(line, impl, mobs, extra):
+        flags = pflags(extra)
+        mode = flags.get("MODE", "?")
+        tags = ["mode=" + mode, "kind=" + flags.get("KIND", "?"), "user=" + flags.get("USER", "?"),
+                "map=" + flags.get("MAP", "?")]
+        parts = impl.split(" ; ")
+        info = {"tags": tags, "nontrivial": True}
+        if any(p.startswith("panic") for p in parts):
+            info["prop_fail"] = "image-read-panic"
+            info["why"] = "Dictionary::read panicked"
+            return info
+        if prop == "C09":
+            if mode == "cuts":
+                cuts = [int(x) for x in line.split(" CUTS ")[1].split(" IMPL ")[0].split()[1:]]
+                ln = int(flags.get("LEN", "0"))
+                bad = [c for c, p in zip(cuts, parts) if c < ln and p != "err"]
+                tags.append("cuts=%d" % len(cuts))
+                if bad:
+                    info["prop_fail"] = "truncated-image-accepted"
+                    info["why"] = "a strict prefix of a valid image (length %d of %d) was not rejected" % (bad[0], ln)
+            elif mode == "magic" and impl != "err":
+                info["prop_fail"] = "foreign-magic-accepted"
+                info["why"] = "a stream that does not start with the model magic was not rejected"
+        else:
+            if mode == "full":
+                f = impl.split()
+                if f[0] != "ok" or f[-1] != "same" or f[1] != flags.get("LEN") or f[2] != flags.get("LEN"):
+                    info["prop_fail"] = "image-roundtrip"
+                    info["why"] = "read(write D) does not consume/re-emit exactly the written bytes"
+                elif flags.get("BEH") == "0" or "WRONGLEN" in flags:
+                    info["prop_fail"] = "image-behaviour"
+                    info["why"] = "the reloaded dictionary behaves differently (tokens / second write / reported length)"
+        return info
+    return classify
+
+
+def image_streams(prop):
+    def streams(tier, seed):
+        c = image_classify(prop)
+        if prop == "C09":
+            if tier == "quick":
+                return [(["image", "cuts", str(seed), "6"], c), (["image", "magic", str(seed), "60"], c)]
+            return [(["image", "allcuts", str(seed), "3"], c), (["image", "cuts", str(seed + 1), "60"], c),
+                    (["image", "magic", str(seed), "2000"], c)]
+        if tier == "quick":
+            return [(["image", "full", str(seed), "120"], c)]
+        return [(["image", "full", str(seed), "3000"], c)]
+    return streams
+
+
+CODEC_TB = ["bincode 2 wire format (little endian, fixed-int) modelled for the types used; validated by byte-exact re-encoding of real images",
+            "crawdad trie blob treated as opaque bytes (own header walk modelled)",
+            "allocation failure on absurd length prefixes (process abort) is outside the model; cannot occur for strict prefixes or foreign magic"]
+
+
 def simple_streams(name, nq, nt, classify):
     def streams(tier, seed):
         n = nq if tier == "quick" else nt
@@ -124,6 +180,29 @@ LATTICE_TB = [
 ]
 
 PROPS = {
+    "C05": {
+        "modules": ["Vibrato.Props.C05"],
+        "theorems": ["Vibrato.C05.decode_encode", "Vibrato.C05.reread_equal", "Vibrato.C05.trailing_ignored",
+                     "Vibrato.C05.rewrite_same_bytes", "Vibrato.C05.behaviour_congr", "Vibrato.C05.accepted_is_wf",
+                     "Vibrato.C05.reread_accepted", "Vibrato.C05.write_len", "Vibrato.C05.lane_repr_irrelevant"],
+        "streams": image_streams("C05"),
+        "rule": "dictionaries of all three connector kinds built from generated sources, then a random history of "
+                "{load user lexicon, map ids, write/read}; the whole image is decoded and re-encoded by the Lean model "
+                "(byte-exact comparison via length + FNV-64 + first differing offset) and the reloaded dictionary is "
+                "compared with the original on probe sentences, second write and reported length; every case is non-trivial",
+        "trusted_base": CODEC_TB,
+        "assumptions": ["portable build only; AVX2 interchange is covered at model level by lane_repr_irrelevant (the encoding is defined on lane values)"],
+    },
+    "C09": {
+        "modules": ["Vibrato.Props.C09"],
+        "theorems": ["Vibrato.C09.strict_prefix_rejected", "Vibrato.C09.accepted_cut_rejected",
+                     "Vibrato.C09.foreign_magic_rejected"],
+        "streams": image_streams("C09"),
+        "rule": "quick: 6 images x (first 400 offsets, last 1500 offsets, 600 random offsets) + 60 wrong/partial magic "
+                "headers; thorough: EVERY strict prefix of 3 images + 60 sampled images + 2000 magic cases",
+        "trusted_base": CODEC_TB,
+        "assumptions": [],
+    },
     "C17": {
         "modules": ["Vibrato.Props.C17"],
         "theorems": ["Vibrato.C17.rewrite_first_match", "Vibrato.C17.rewrite_first_match_total",
